@@ -56,6 +56,11 @@ class CleanBase(Prop):
                 entries.append((b"%s - %d" % (t, k), G.gen_text(r, maxlines=3).replace(b"\r", b"")))
         for t in stale_tests:
             entries.append((b"%s - %d" % (t, r.range(1, 2)), G.gen_text(r, maxlines=3).replace(b"\r", b"")))
+        if entries and r.chance(1, 3):
+            # a body that quotes a header: `[<id of another entry>]` followed by more text (stored verbatim by the library)
+            k = r.below(len(entries))
+            other = r.choice(entries)[0]
+            entries[k] = (entries[k][0], r.choice([b"excerpt:\n", b""]) + b"[" + other + b"]\nquoted text" + r.choice([b"", b"\n\nmore"]))
         entries = r.shuffle(entries)
         if sort_names and r.chance(1, 2):
             entries.sort(key=lambda e: e[0])
@@ -74,8 +79,12 @@ class CleanBase(Prop):
             extra_files[b"def/sub/inner_test.snap"] = frame(b"TestIn - 1", b"i")
         if r.chance(1, 3):
             extra_files[b"d2/other_test.snap"] = frame(b"TestFar - 1", b"f")
+        if r.chance(1, 4):
+            extra_files[b"def/archive.snap.d/keep.txt"] = b"inside a sub-directory whose name contains .snap"
         for p, c in extra_files.items():
             setup.append(G.op_putfile(p, c))
+        if r.chance(1, 4):
+            setup.append({"op": "putdir", "path": hx(b"def/empty.snapshots")})
         # the run: every test makes its calls with the stored values (so they pass), plus standalone calls
         run = []
         values = dict(entries)
@@ -93,11 +102,17 @@ class CleanBase(Prop):
             # entry of the first file (a test that moved between files)
             t0 = tests[0]
             second = [(b"%s - 1" % t0, b"moved-away value"), (b"TestSecond - 1", b"s1")]
+            if stale_tests and r.chance(1, 2):
+                # the same id stale in BOTH files (each occurrence is judged, listed and removed on its own)
+                sid = next((i for i, _ in entries if i.startswith(stale_tests[0] + b" - ")), None)
+                if sid:
+                    second.append((sid, b"stale in the second file too"))
             if r.chance(1, 2):
                 second.reverse()
             setup.append(G.op_putfile(b"def/aaa_second.snap" if r.chance(1, 2) else b"def/zzz_second.snap", b"".join(frame(i, b) for i, b in second)))
             fn = setup[-1]["path"]
-            cfg = G.op_newconfig(dir=b"def", fn=unhx(fn).split(b"/")[-1][:-5])
+            # Dir spelled canonically or not: the registry key and Clean's directory walk must still agree
+            cfg = G.op_newconfig(dir=r.choice([b"def", b"def", b"def/", b"./def", b"def/../def", b"def//"]), fn=unhx(fn).split(b"/")[-1][:-5])
             extra = []
             for _ in range(count):
                 extra += [G.op_match_snap(1, b"TestSecond", [b"s1"]), G.op_end(b"TestSecond")]
